@@ -215,6 +215,12 @@ def directed(tier):
                     steps.append(op(0, *w))
             steps += [op(0, "KEYS", "*")]
             cases.append(("c20-extra-%s-%d-%s" % (be, j, seq[-1][0]), be, steps))
+    # the small-scope sweeps of the data-type properties, with the feed attached (payload of every record)
+    want = ("c02-dups-moves", "c02-ltrim-3", "c02-lset-pop-3", "c03-spop-smove", "c03-hash", "c04-remove-2", "c04-remove-3", "c04-updates", "c01-counters")
+    for gen in (corpora.c02, corpora.c03, corpora.c04, corpora.c01):
+        for cid, be, steps in gen(tier):
+            if cid in want:
+                cases.append(("c20-" + cid, be, [feed] + steps))
     # order of delivery for back-to-back commands
     for r in range(3 if tier != "thorough" else 12):
         cases.append(("c20-burst-%d" % r, "mem", [feed, x("BURST", lit("burst") + ":40"), op(0, "LLEN", "burst")]))
